@@ -185,6 +185,12 @@ Theorem C02_built_index_holds_exactly_the_registrations regs : functional regs -
   forall n p id, IndexBuild.holds (build_index regs) n p id <-> In (n, (p, id)) regs.
 Proof. exact (build_index_spec regs). Qed.
 
+(** ... and for the listing of the model's walk ([walk_listing]: the paths of the file system under
+    a scan directory, which is what the validator computes) no hypothesis is left. *)
+Theorem C02_walked_index_is_the_registered_set f dev under es0 :
+  ix_of_fs f dev under es0 (build_index (scan_regs f dev under es0 (walk_listing f under) ++ export_regs f dev es0)).
+Proof. exact (walked_index_is_ix_of_fs f dev under es0). Qed.
+
 Print Assumptions C02_candidates_complete.
 Print Assumptions C02_candidates_sound.
 Print Assumptions C02_witnesses_give_combination.
@@ -200,3 +206,4 @@ Print Assumptions C02_whole_run_present_piece_recovered.
 Print Assumptions C02_export_probes_register_the_index_set.
 Print Assumptions C02_built_index_is_the_registered_set.
 Print Assumptions C02_built_index_holds_exactly_the_registrations.
+Print Assumptions C02_walked_index_is_the_registered_set.
